@@ -80,8 +80,11 @@ CLAIMED = {
         "text": "PARTIAL. Rocq theorems for every link of the resolution chain over the converter/process model: C08_storage_source, C08_image_source, C08_network (a reference to a unit in the name "
                 "table uses the table's object name and adds Requires=/After= on the table's service file; a missing unit gives an error carrying its file name), C08_service_names (the stored "
                 "service name is ServiceName or <stem><suffix>), C08_tables_set (a successful .volume/.network/.image conversion stores exactly the documented object name -- VolumeName/NetworkName or "
-                "systemd-<stem>, ImageTag or Image -- under its file name), C08_sorted (units are processed in a priority-sorted permutation, so referenced types come first). The composition over arbitrary "
-                "reference graphs (and 'fails only the referring unit') is decided by the direct oracle (in-process and end to end) and whole-set correspondence of the Process model.",
+                "systemd-<stem>, ImageTag or Image -- under its file name), C08_sorted and C08_lower_priority_first (units are processed in a priority-sorted permutation, so referenced types come first), "
+                "and over whole runs C08_names_along_the_run (once a volume/network/image unit has converted, every later conversion of the run sees under its file name exactly the object name its own "
+                "conversion computed and the service file name its own conversion returned, given distinct file names), C08_volume_creates / C08_network_creates (that name is the one the unit's own ExecStart creates). "
+                "The reading of a Volume=/Mount=/Network= value into a reference and 'fails only the referring unit' are decided by the direct oracle (in-process and end to end) and whole-set "
+                "correspondence of the Process model.",
         "note": "Trusted: Coq kernel; Spec/Names.v; the converter/process model (differentially validated on unit sets with references); sort_unstable_by is modelled by a stable sort.",
         "technique": "machine-checked proof in Rocq (Coq 8.16) of the resolution lemmas over the converter model + direct oracle on reference graphs + differential correspondence",
         "design": "DESIGN.md §7 C08",
